@@ -416,7 +416,8 @@ Lemma add_delay_ok d n s s' :
     validate_duration (ch_cfg c) d = Ok d' /\
     find_chan n s' =
       Some (set_slots c ({| s_kind := k; s_ti := s_tf lst; s_tf := s_tf lst + d';
-                            s_tg := s_tg lst |} :: ch_slots c)).
+                            s_tg := s_tg lst |} :: ch_slots c)) /\
+    k <> KTarget.
 Proof.
   intros H. unfold add_delay in H.
   mbindok H s1 lst H1; apply last_slot_inv in H1; destruct H1 as [-> H1].
@@ -427,10 +428,11 @@ Proof.
   mbindok H s4 u H4; apply lift_inv in H4; destruct H4 as [-> H4].
   exists c', lst, rest, d'.
   destruct (in_eom c' && _); unfold append_slot in H; inv H;
-    eexists; (split; [eauto|split; [eauto|split; [eauto|]]]);
-    match goal with
-    | |- find_chan n (upd_chan n ?g s) = _ => exact (find_upd_same n g s c' Hc eq_refl)
-    end.
+    eexists; (split; [eauto|split; [eauto|split; [eauto|split;
+      [match goal with
+       | |- find_chan n (upd_chan n ?g s) = _ => exact (find_upd_same n g s c' Hc eq_refl)
+       end
+      |discriminate]]]]).
 Qed.
 
 Lemma fold_max_ge l a : a <= fold_max l a.
